@@ -23,7 +23,11 @@ def make_sim(kind, **kw):
             from vf.simw import SimW
             if CURRENT['rec'] is not None:
                 CURRENT['rec'].count('engine_simple_websocket')
-            return SimW(**kw)
+            sim = SimW(**kw)
+            from vf import rec as _rec
+            _rec.WSIMS.append(sim)
+            del _rec.WSIMS[:-4]     # (the sims of the current case)
+            return sim
         from vf.simt import SimT
         return SimT(**kw)
     from vf.sima import SimA
@@ -130,6 +134,8 @@ def run_cases(rec, cases, fn, max_harness_errors=3):
     never violations."""
     for case in cases:
         CURRENT['rec'], CURRENT['case'] = rec, case
+        from vf import rec as _rec
+        del _rec.WSIMS[:]
         try:
             fn(rec, case)
         except Exception:
